@@ -217,6 +217,13 @@ func registerIntrinsics(e *Exec) {
 			return ret(s2, BV{total}, err)
 		})
 	}
+	in["(io.discard).ReadFrom"] = func(e *Exec, st *State, fn *ssa.Function, args []Value) []Outcome {
+		return e.drainReader(st, args[1].(IfaceV), 0, e.tc.Int(0), func(s2 *State, chunk SliceV) []Outcome {
+			return ret(s2, BV{chunk.Len}, IfaceV{})
+		}, func(s2 *State, total *Term, err Value) []Outcome {
+			return ret(s2, BV{total}, err)
+		})
+	}
 	in["io.ReadAll"] = func(e *Exec, st *State, fn *ssa.Function, args []Value) []Outcome {
 		acc := e.alloc(st, ByteBuf{C: czero, Len: e.tc.Int(0)})
 		return e.drainReader(st, args[0].(IfaceV), 0, e.tc.Int(0), func(s2 *State, chunk SliceV) []Outcome {
